@@ -54,6 +54,18 @@ def write_replay(prop, key, payload):
     return path
 
 
+def case_stats(cases):
+    """cases: iterable of (judged, description).  evaluations = all executed cases; distinct_nontrivial = number of DISTINCT
+    descriptions (operation, arguments, state it was applied to) among the cases that were judged in contract."""
+    n = 0
+    seen = set()
+    for judged, desc in cases:
+        n += 1
+        if judged:
+            seen.add(hashlib.sha1(json.dumps(desc, sort_keys=True, default=str).encode()).hexdigest())
+    return dict(evaluations=n, distinct_nontrivial=len(seen))
+
+
 def finish(ctx, level, coverage, assumptions):
     """Apply the known-findings list, print the verdict lines, write evidence, return exit code."""
     known = load_known(ctx.prop)
